@@ -9,14 +9,17 @@ ID = "C06"
 PROOF_FILES = ["C06Parse", "C06Lists", "C06Classes", "C06Color", "C06Entries", "C06Inv", "C06Cov", "C06Exist", "C06Build", "C06Pipe", "C06Attach", "C06AttachBase", "C06AttachLig", "C06AttachMkmk", "C06Sound", "C06Complete", "C06"]
 THEOREM = ("Ufo2ft.C06.C06_offset / C06_candidate / C06_sound / C06_ligature / C06_complete / C06_holds / C06_error / "
            "groups_no_shared_mark / colorGraph_is_proper / firstAvailable_smallest / C06_parse_shape / C06_parse_mark / "
-           "C06_parse_lig / C06_parse_null / C06_candidate_order_partial")
+           "C06_parse_lig / C06_parse_null / C06_candidate_order_partial / C06_offset_general / C06_ctx_offset / C06_ctx_holds / "
+           "C06_frame / C06_plain_lookups_have_no_contextual_anchor / C06_ctx_split / C06_ctx_error / C06_modelX_error")
 N = {"quick": 400, "thorough": 12000}
 RULE = ("random 'anchor fonts': 2-10 glyphs in the roles base / ligature / mark / Indic-Khmer base+mark / odd, each with a random "
         "set of named anchors (plain, '_'-prefixed, numbered 'x_N' incl. gaps, key-less '_N', 'top.alt'-style, keys ending in a digit, "
         "duplicates, unnamed, ignorable, contextual-without-data, a few malformed names that must raise), coordinates on the 1/8 grid "
         "with x.5 values, quantization in {1,5,10,2.5,0.5}, groupMarkClasses on/off, GDEF classes absent / from public.openTypeCategories / "
         "from a GDEF table in the feature file (with deliberately inconsistent categories), Devanagari/Kannada/Khmer/multi-script code "
-        "points with or without languagesystem statements (abvm/blwm routing), ufoLib2 and defcon.  The font is compiled with compileTTF "
+        "points with or without languagesystem statements (abvm/blwm routing), ufoLib2 and defcon; in a third of the fonts contextual anchors "
+        "('*key', '*key.alt', '*key_N' with object-lib data GPOS_Context = '* X' / 'X * Y' / '* [X Y]' / '* @class' / 'lookupflag ...; * X', also "
+        "empty libs, libs without the key, identifiers without lib entry, two-';' contexts, object libs on plain anchors).  The font is compiled with compileTTF "
         "and the MarkFeatureWriter, saved and reloaded; harness/gpos.py evaluates MarkBasePos/MarkLigPos/MarkMarkPos for EVERY ordered "
         "(glyph, glyph, component) triple, per feature (abvm, blwm, mark, mkmk) and over all four in lookup order (last wins).  The model's "
         "tables must be equal; `holds` (offset = qround(base) - qround(mark) of a matching source anchor pair; nothing else attached; every "
@@ -25,7 +28,7 @@ RULE = ("random 'anchor fonts': 2-10 glyphs in the roles base / ligature / mark 
 ASSUMED = [
     "feaLib compiles `pos base|ligature|mark` statements and markClass definitions as written (one MarkArray per lookup from the classes it references; a later anchor for the same class in one statement overrides an earlier one) - exercised on every case through the compiled font",
     "the ordered glyph set, the GDEF glyph classes and the abvm / not-abvm glyph sets (Unicode script extensions) are inputs of the model; the harness computes them independently from the case description and fontTools.unicodedata",
-    "anchor names are ASCII (Python's \\d and str.isalpha are Unicode-aware); contextual anchors with GPOS_Context lib data, pre-existing mark/mkmk/abvm/blwm feature blocks in the feature file (hand-written markClass definitions ARE modelled: input `pre`; the theorems assume none), variable fonts and GSUB closure of the abvm glyph set are not modelled",
+    "anchor names are ASCII (Python's \\d and str.isalpha are Unicode-aware); pre-existing mark/mkmk/abvm/blwm feature blocks in the feature file (hand-written markClass definitions ARE modelled: input `pre`; the theorems assume none), variable fonts and GSUB closure of the abvm glyph set are not modelled",
 ]
 
 BASE_KEYS = ["top", "bottom", "top.alt", "ogonek", "nukta", "bottomleft", "candra", "center", "top2", "topalt", "bottom.alt", "bottomcenter"]
@@ -166,15 +169,69 @@ def gen(rng, n, mode):
                         a = [a for a in g["anchors"] if a[0] == "_" + k_][0]
                         dx, dy = rng.choice([(0, 0), (0, 0), (0, 50), (0, -7), (30, 0), (5, 5)])
                         premark.append([g["name"], k_, rnd(a[1]) + dx, rnd(a[2]) + dy])
-        yield {"glyphs": glyphs, "premark": premark, "quant": quant, "gdef": gm, "cats": cats,
-               "group": rng.random() < 0.5, "lib": rng.choice(["ufoLib2", "ufoLib2", "defcon"]), "langsys": langsys,
-               "writerLib": rng.random() < 0.2}
+        case = {"glyphs": glyphs, "premark": premark, "quant": quant, "gdef": gm, "cats": cats,
+                "group": rng.random() < 0.5, "lib": rng.choice(["ufoLib2", "ufoLib2", "defcon"]), "langsys": langsys,
+                "writerLib": rng.random() < 0.2}
+        if rng.random() < 0.35:
+            _add_contextual(rng, case, keys, search)
+        yield case
+
+
+def _add_contextual(rng, case, keys, search):
+    """contextual anchors: '*key[_N][.suffix]' with object-lib data {"GPOS_Context": "<context>"} (4th element of the anchor:
+    {"ctx": str} | "nokey" (non-empty lib without the key) | "empty" ({}: counts as no data) | "idonly" (identifier, no entry)
+    | "idnolib" (identifier on a glyph without public.objectLibs)); contexts name glyphs / a class of the font"""
+    glyphs = case["glyphs"]
+    names = [g["name"] for g in glyphs]
+    if len(names) < 2:
+        return
+    case["ctxclass"] = rng.sample(names, min(len(names), rng.choice([1, 2, 3]))) if rng.random() < 0.5 else []
+
+    def context():
+        x, y = rng.choice(names), rng.choice(names)
+        t = rng.choice(["* X", "* X", "X *", "X * Y", "* & X", "* X &", "* [X Y]", " * X ", "X * & Y", "* @ctxcls",
+                        "lookupflag UseMarkFilteringSet [X Y]; * X"])
+        if "@ctxcls" in t and not case["ctxclass"]:
+            t = "* X"
+        if rng.random() < (0.02 if not search else 0.1):
+            t = rng.choice(["a; b; * X", "   ", ""])
+        return t.replace("X", x).replace("Y", y)
+
+    pool = [context() for _ in range(rng.choice([1, 2, 2, 3]))]
+    for g in glyphs:
+        an = g["anchors"]
+        plain = [a[0] for a in an if a[0] and re.fullmatch(r"[A-Za-z][A-Za-z0-9.]*", a[0])]
+        lig = [a[0] for a in an if a[0] and re.fullmatch(r"[A-Za-z][A-Za-z0-9.]*_\d+", a[0])]
+        if rng.random() < 0.6:
+            for _ in range(rng.choice([1, 1, 2, 3])):
+                r = rng.random()
+                if lig and r < 0.5:
+                    base = rng.choice(lig) if rng.random() < 0.7 else rng.choice(keys) + "_%d" % rng.choice([1, 2, 3])
+                    stem, num = base.rsplit("_", 1)
+                    nm = "*" + stem.split(".")[0] + "_" + num
+                else:
+                    k_ = rng.choice(plain) if plain and rng.random() < 0.6 else rng.choice(keys)
+                    nm = "*" + k_.split(".")[0]
+                if rng.random() < 0.5:
+                    nm += rng.choice([".alt", ".ctx", ".a.b"])
+                spec = rng.choice([{"ctx": rng.choice(pool)}] * 7 + ["nokey", "empty", "idonly"])
+                an.insert(rng.randrange(len(an) + 1), _anchor(rng, nm) + [spec])
+        if an and rng.random() < 0.1:
+            a = rng.choice(an)
+            if len(a) == 3:
+                a.append(rng.choice([{"ctx": rng.choice(pool)}, "idonly", "nokey"]))      # object lib on a plain anchor: ignored
+    if rng.random() < (0.04 if not search else 0.0):
+        cands = [g for g in glyphs if g["anchors"] and all(len(a) == 3 for a in g["anchors"])]
+        if cands:
+            rng.choice(rng.choice(cands)["anchors"]).append("idnolib")
 
 
 # ------------------------------------------------------------------ implementation side
 
 def _fea(case):
     lines = [f"languagesystem {t} dflt;" for t in case["langsys"]]
+    if case.get("ctxclass"):
+        lines.append("@ctxcls = [%s];" % " ".join(case["ctxclass"]))
     have = {(g["name"], a[0]) for g in case["glyphs"] for a in g["anchors"]}
     for g, k, x, y in case.get("premark") or []:
         if (g, "_" + k) in have:
@@ -237,7 +294,10 @@ FEATS = ["abvm", "blwm", "mark", "mkmk"]
 
 
 def _trailing(name):
-    m = re.search(r"(\d+)$", name or "")
+    name = name or ""
+    if name.startswith("*"):
+        name = name[1:].split(".")[0]
+    m = re.search(r"(\d+)$", name)
     return int(m.group(1)) if m else 0
 
 
@@ -294,6 +354,7 @@ def run(case):
     else:
         kw["featureWriters"] = [MarkFeatureWriter(quantization=q, groupMarkClasses=case["group"])]
     font = build(fd, case["lib"])
+    _apply_object_libs(font, case)
     K = max([1] + [n for g in case["glyphs"] for a in g["anchors"] for n in [_trailing(a[0])] if n <= 6])
     err = None
     try:
@@ -301,17 +362,24 @@ def run(case):
         buf = io.BytesIO(); tt.save(buf)
         tt = TTFont(io.BytesIO(buf.getvalue()))
         tabs, lig = _observe(tt, order, K)
-        obs = {"err": None, "tables": tabs, "ligCount": lig}
+        obs = {"err": None, "tables": tabs, "ligCount": lig, "ctx": _observe_ctx(tt, font, kw, order, K, case)}
     except Exception as e:
         err = err_kind(e)
         obs = {"err": err}
     abvm, notabvm = _abvm_sets(case, order)
-    inp = {"glyphs": [[".notdef", []]] + [[g["name"], [[a[0] or "", rat(a[1]), rat(a[2])] for a in g["anchors"]]] for g in case["glyphs"]],
+    inp = {"glyphs": [[".notdef", []]] + [[g["name"], [_anchor_input(g, a) for a in g["anchors"]]] for g in case["glyphs"]],
            "gdef": _gdef_input(case), "quant": rat(q), "group": case["group"], "abvm": abvm, "notAbvm": notabvm, "K": K,
            "pre": _pre_classes(case)}
     tags = ["gdef:" + case["gdef"], "group" if case["group"] else "single", "quant:%s" % q, case["lib"]]
     if case.get("premark"):
         tags.append("predefined-markClass")
+    specs = [_spec(a) for g in case["glyphs"] for a in g["anchors"] if _spec(a) is not None]
+    if specs:
+        tags.append("object-libs")
+    for sp in specs:
+        t = "objlib:" + ("context" if isinstance(sp, dict) else sp)
+        if t not in tags:
+            tags.append(t)
     nontrivial = False
     if err is not None:
         tags.append("err:" + err)
@@ -338,8 +406,197 @@ def run(case):
         if any(len({a[0] for a in g["anchors"]}) < len(g["anchors"]) for g in case["glyphs"]):
             tags.append("dup-name")
         tags += _branch_tags(case, tt, abvm, notabvm)
+        for f in ("mark", "mkmk"):
+            c = obs["ctx"][f]
+            if c["ref"]:
+                tags.append("contextual:%s" % f)
+                if any(any(e[2] is not None for e in t_) for t_ in c["ref"]):
+                    tags.append("contextual:ligature")
+                if len(c["disp"]) > 1 or any(d[0] for d in c["disp"]):
+                    tags.append("contextual:lookupflag-dispatch")
+                if any(t_ for t_ in c["ref"]):
+                    nontrivial = True
+        if obs["ctx"]["checked"]:
+            tags.append("contextual:compiled-rules-checked-against-text")
+        if obs["ctx"]["unparsed"]:
+            tags.append("contextual:statement-outside-harness-grammar")
         nontrivial = bool(al) and (multi or "lig-attach" in tags or bool(tabs["mkmk"]) or bool(tabs["abvm"]) or bool(tabs["blwm"]))
     return [{"op": "font", "in": inp, "obs": obs, "tags": tags, "nontrivial": nontrivial}]
+
+
+def _spec(a):
+    return a[3] if len(a) > 3 else None
+
+
+def _glyph_has_objectlibs(g):
+    return any(_spec(a) is not None and _spec(a) != "idnolib" for a in g["anchors"])
+
+
+def _anchor_input(g, a):
+    """[name, x, y, lib, idNoLib]: lib = the GPOS_Context of a non-empty object lib ("" without the key), else null"""
+    sp = _spec(a)
+    lib = sp["ctx"] if isinstance(sp, dict) else ("" if sp == "nokey" else None)
+    return [a[0] or "", rat(a[1]), rat(a[2]), lib, sp == "idnolib" and not _glyph_has_objectlibs(g)]
+
+
+def _apply_object_libs(font, case):
+    for g in case["glyphs"]:
+        glyph = font[g["name"]]
+        for i, a in enumerate(g["anchors"]):
+            sp = _spec(a)
+            if sp is None:
+                continue
+            anc = glyph.anchors[i]
+            anc.identifier = "anchor%02d" % i
+            if sp in ("idnolib",):
+                continue
+            libs = glyph.lib.setdefault("public.objectLibs", {})
+            if sp == "idonly":
+                continue
+            libs[anc.identifier] = {"GPOS_Context": sp["ctx"]} if isinstance(sp, dict) else ({"com.example.other": 1} if sp == "nokey" else {})
+
+
+def _parse_pos_text(text, classes):
+    """restricted reader of a dispatch statement `pos A [B C] @MC_x' lookup NAME D;` ->
+    (backtrack sets, input set, lookahead sets, lookup name); None when the statement is outside the restricted grammar"""
+    m = re.fullmatch(r"pos (.*);", text.strip())
+    if not m:
+        return None
+    toks = re.findall(r"\[[^\]]*\]'?|[^\s\[\]]+", m.group(1))
+    back, inp, ahead, name = [], None, [], None
+    i = 0
+    while i < len(toks):
+        t = toks[i]
+        marked = t.endswith("'")
+        t0 = t[:-1] if marked else t
+        if t0.startswith("["):
+            st = set()
+            for x in t0[1:-1].split():
+                if x.startswith("@"):
+                    if x[1:] not in classes:
+                        return None
+                    st |= classes[x[1:]]
+                else:
+                    st.add(x)
+        elif t0.startswith("@"):
+            if t0[1:] not in classes:
+                return None
+            st = set(classes[t0[1:]])
+        else:
+            st = {t0}
+        if marked:
+            if inp is not None or i + 2 >= len(toks) or toks[i + 1] != "lookup":
+                return None
+            inp, name = st, toks[i + 2]
+            i += 3
+            continue
+        (back if inp is None else ahead).append(st)
+        i += 1
+    if inp is None:
+        return None
+    return back, inp, ahead, name
+
+
+def _expand(back, inp, ahead, nested):
+    import itertools
+    out = set()
+    for b in itertools.product(*[sorted(x) for x in back]):
+        for m in sorted(inp):
+            for a in itertools.product(*[sorted(x) for x in ahead]):
+                out.add((b, m, a, nested))
+    return out
+
+
+def _observe_ctx(tt, font, kw, order, K, case):
+    """contextual part: the dispatch lookups as the writer wrote them (feature text), the attachment table of every
+    referenced lookup in the compiled GPOS (via the chaining rules that refer to it), and whether the compiled chaining
+    rules say what the text says"""
+    out = {f: {"ref": [], "disp": []} for f in ("mark", "mkmk")}
+    out["compiledOK"] = True
+    out["checked"] = 0
+    out["unparsed"] = 0
+    if "GPOS" not in tt:
+        return out
+    t = tt["GPOS"].table
+    lookups = t.LookupList.Lookup
+    feat_chain = {"mark": [], "mkmk": []}
+    for fr in t.FeatureList.FeatureRecord:
+        if fr.FeatureTag in feat_chain:
+            for li in fr.Feature.LookupListIndex:
+                lk = lookups[li]
+                typ = lk.SubTable[0].ExtensionLookupType if lk.LookupType == 9 else lk.LookupType
+                if typ == 8 and li not in feat_chain[fr.FeatureTag]:
+                    feat_chain[fr.FeatureTag].append(li)
+    if not any(feat_chain.values()):
+        return out
+    # the text the writer generated
+    from ufo2ft.featureCompiler import FeatureCompiler
+    fc = FeatureCompiler(font, featureWriters=kw.get("featureWriters"))
+    fc.setupFeatures()
+    txt = fc.features
+    classes = {}
+    for m in re.finditer(r"markClass (\S+) <anchor [^>]*> @(\S+);", txt):
+        classes.setdefault(m.group(2), set()).add(m.group(1))
+    if case.get("ctxclass"):
+        classes["ctxcls"] = set(case["ctxclass"])
+    for f, prefix in (("mark", "ContextualMark"), ("mkmk", "ContextualMarkToMark")):
+        chains = sorted(feat_chain[f])
+        compiled = []
+        nested = []
+        for li in chains:
+            rs = gpos.chain_rules(tt, li)
+            compiled.append(rs)
+            for r in rs:
+                for _, ni in r["records"]:
+                    if ni not in nested:
+                        nested.append(ni)
+        nested.sort()
+        for ni in nested:
+            tab = []
+            for b in order:
+                for m in order:
+                    for c in [None] + list(range(K)):
+                        off, _ = gpos.mark_attach(tt, [ni], b, m, c)
+                        if off is not None:
+                            tab.append([b, m, c, off[0], off[1]])
+            out[f]["ref"].append(tab)
+        blocks = re.findall(r"lookup (%sDispatch_\d+) \{\n(.*?)\n\} \1;" % prefix, txt, flags=re.S)
+        for bi, (nm, body) in enumerate(blocks):
+            lines = [l.strip() for l in body.split("\n") if l.strip()]
+            before = ""
+            if lines and not lines[0].startswith("#"):
+                before = lines[0][:-1] if lines[0].endswith(";") else lines[0]
+                lines = lines[1:]
+            pairs = [[lines[j], lines[j + 1]] for j in range(0, len(lines) - 1, 2)]
+            out[f]["disp"].append([before, pairs])
+            # compiled rules against the text (restricted grammar)
+            want = set()
+            okparse = True
+            for _, pos in pairs:
+                p = _parse_pos_text(pos, classes)
+                if p is None:
+                    okparse = False
+                    break
+                back, inp, ahead, name = p
+                want |= _expand(back, inp, ahead, int(name.rsplit("_", 1)[1]))
+            if not okparse:
+                out["unparsed"] += 1
+            if okparse:
+                out["checked"] += 1
+                got = set()
+                if bi < len(compiled):
+                    for r in compiled[bi]:
+                        if len(r["input"]) != 1 or len(r["records"]) != 1 or r["records"][0][0] != 0:
+                            out["compiledOK"] = False
+                            continue
+                        got |= _expand(r["back"], r["input"][0], r["ahead"], nested.index(r["records"][0][1]))
+                # feaLib drops glyph sequences a previous rule of the same lookup already covers: compare what applies first
+                if got != want:
+                    out["compiledOK"] = False
+                    out["compiledDiff"] = [sorted(map(repr, got - want))[:3], sorted(map(repr, want - got))[:3]]
+        if len(blocks) != len(chains):
+            out["compiledOK"] = False
+    return out
 
 
 def _branch_tags(case, tt, abvm, notabvm):
@@ -425,6 +682,17 @@ def agree(req, rep):
     for f in FEATS + ["all"]:
         if sorted(m["tables"][f], key=key) != sorted(o["tables"][f], key=key):
             return False
+    # contextual part: the dispatch statements as text, the referenced lookups as attachment tables (same order), and the
+    # compiled chaining rules must say what the text says
+    oc, mc = o["ctx"], m["ctx"]
+    if not oc.get("compiledOK", True):
+        return False
+    for f in ("mark", "mkmk"):
+        if mc[f]["disp"] != oc[f]["disp"] or len(mc[f]["ref"]) != len(oc[f]["ref"]):
+            return False
+        for a, b in zip(mc[f]["ref"], oc[f]["ref"]):
+            if sorted(a, key=key) != sorted(b, key=key):
+                return False
     return sorted(m["ligCount"]) == sorted(o["ligCount"])
 
 
@@ -450,7 +718,12 @@ def classify_failure(res):
     [A-Za-z0-9._]): (1) two different mark anchor names whose generated mark class names coincide (ast.makeFeaClassName
     drops the odd characters); (2) FeatureLibError because "mark2mark_<key>" is not a lexable lookup name"""
     r = res["req"]
-    if res["model"].get("err") is not None or res["model"].get("wf") is not False:
+    # crashes (KeyError) on well-formed fonts with object-lib data / contextual anchors
+    if res["model"].get("errDetail") == "KeyError:objectLibs" and r["obs"].get("err") == "KeyError":
+        return {"finding": "anchor-identifier-without-objectLibs"}
+    if res["model"].get("errDetail") == "KeyError:markClass" and r["obs"].get("err") == "KeyError":
+        return {"finding": "contextual-anchor-without-mark-class"}
+    if res["model"].get("err") is not None or res["model"].get("wf0", res["model"].get("wf")) is not False:
         return None
     if r["obs"].get("err") == "FeatureLibError" and _unlexable_mkmk(r["case"]):
         return {"finding": "mkmk-lookup-name-unlexable"}
@@ -496,5 +769,5 @@ LEVEL_NOTE = ("Hypothesis `wf`: glyph names distinct, every glyph in the abvm or
               "[A-Za-z0-9._] (outside it ufo2ft really violates the property: two known findings). Not proved: WHICH candidate wins when "
               "several keys match (C06_candidate_order_partial; the property allows any) - tied by correspondence only. Trusted: Lean kernel "
               "+ standard axioms; the correspondence harness and harness/gpos.py; feaLib's compilation of the generated statements; GDEF "
-              "classes / abvm glyph sets / glyph order are inputs. Not modelled: contextual anchors with lib data, append mode and "
+              "classes / abvm glyph sets / glyph order are inputs. Contextual anchors ('*' + GPOS_Context object-lib data) are modelled (Model/C06Ctx.lean): proved are the soundness of every contextual attachment (C06_ctx_offset), that plain lookups never use a contextual anchor and stay sound in their presence (C06_offset_general), the exact frame without object-lib data (C06_frame) and the error conditions; NOT proved: completeness of the contextual lookups and of the plain lookups when object-lib data is present (correspondence only). The dispatch (chaining) statements are compared as generated feature TEXT; the compiled ChainContextPos rules are checked against that text by the harness (restricted grammar) and the referenced lookups are evaluated in the compiled GPOS. Not modelled: contexts without '*' (feaLib rejects them), append mode and "
               "variable fonts, GSUB closure of abvm glyphs. Hand-written markClass definitions are modelled (compared exactly) but outside `wf`: the theorems assume the feature file defines none.")
